@@ -5,6 +5,8 @@ import (
 	"fmt"
 	"sort"
 	"strings"
+	"sync/atomic"
+	"time"
 
 	"github.com/cloudwego/eino/compose"
 	"github.com/cloudwego/eino/schema"
@@ -451,7 +453,15 @@ type WMid struct {
 	X  string
 	Y  string
 	S  string
+	C  string
 }
+
+// the input the guard node of the workflow rejects (spec input 4)
+const (
+	wfBadA = "a4"
+	wfBadB = "b28"
+)
+
 type WOut struct {
 	ID string
 	P  string
@@ -467,35 +477,79 @@ func init() {
 			o.X += x.X
 			o.Y += x.Y
 			o.S += x.S
+			o.C += x.C
 		}
 		return o, nil
 	})
 }
 
 func buildWorkflow(r *lib.Rng, z *zoo) (*object, error) {
+	// A call whose guard node c rejects its input (A == wfBadA) returns at once, while the
+	// parallel nodes l and r of THAT run are still executing (a workflow collects its tasks one by
+	// one): the abandoned tasks finish a little later, when the caller is already in its next
+	// call and other callers are in theirs. Whatever the engine does with them then, they must
+	// never show up in another run. To keep the events of the rejected call deterministic, c
+	// rejects only once l and r of its own call have logged everything and parked (a counter in
+	// the call's own recorder: no synchronisation between runs); the healthy calls take a little
+	// longer than the abandoned tasks, so that those finish while the next run is waiting.
+	park := func(ctx context.Context, bad bool) {
+		if rc := recOf(ctx); bad && rc != nil {
+			atomic.AddInt32(&rc.parked, 1)
+			// stay in flight until the call has returned to its caller (doCall raises the flag of
+			// THIS call's recorder; bounded, in case the engine waits for its tasks), then a little
+			// longer: the caller is in its next call by then
+			for i := 0; atomic.LoadInt32(&rc.returned) == 0 && i < 20000; i++ {
+				time.Sleep(100 * time.Microsecond)
+			}
+			time.Sleep(2 * time.Millisecond)
+		}
+	}
 	wf := compose.NewWorkflow[WIn, WOut]()
 	wf.AddLambdaNode("l", compose.InvokableLambdaWithOption(func(ctx context.Context, in WLeft, opts ...lopt) (string, error) {
 		ev(ctx, "n:l")
 		see(ctx, "node l", in.ID+in.A)
 		o := applyOpts(ctx, "l", opts)
 		jitter(ctx, z.sched, "l")
+		if in.A == wfBadA {
+			park(ctx, true)
+		} else {
+			time.Sleep(time.Millisecond)
+		}
 		return "l(" + in.ID + "," + in.A + ")" + o, nil
 	})).AddInput(compose.START, compose.MapFields("ID", "ID"), compose.MapFields("A", "A"))
 	wf.AddLambdaNode("r", compose.InvokableLambda(func(ctx context.Context, in string) (map[string]any, error) {
 		ev(ctx, "n:r")
 		see(ctx, "node r", in)
 		jitter(ctx, z.sched, "r")
+		if in == wfBadB {
+			park(ctx, true)
+		} else {
+			time.Sleep(3 * time.Millisecond)
+		}
 		return map[string]any{"v": "r(" + in + ")"}, nil
 	})).AddInput(compose.START, compose.FromField("B"))
+	wf.AddLambdaNode("c", compose.InvokableLambda(func(ctx context.Context, in string) (string, error) {
+		ev(ctx, "n:c")
+		see(ctx, "node c", in)
+		if in == wfBadA {
+			rc := recOf(ctx)
+			for i := 0; rc != nil && atomic.LoadInt32(&rc.parked) < 2 && i < 100000; i++ {
+				time.Sleep(100 * time.Microsecond) // at most 10 s: l and r of this call are on their way
+			}
+			return "", &nodeErr{"c"}
+		}
+		return "c(" + in + ")", nil
+	})).AddInput(compose.START, compose.FromField("A"))
 	mid := wf.AddLambdaNode("m", compose.InvokableLambdaWithOption(func(ctx context.Context, in WMid, opts ...lopt) (WOut, error) {
 		ev(ctx, "n:m")
-		see(ctx, "node m", in.ID+in.X+in.Y)
+		see(ctx, "node m", in.ID+in.X+in.Y+in.C)
 		o := applyOpts(ctx, "m", opts)
 		jitter(ctx, z.sched, "m")
-		return WOut{ID: in.ID, P: "m(" + in.X + ";" + in.Y + ";" + in.S + ")" + o, Q: in.S}, nil
+		return WOut{ID: in.ID, P: "m(" + in.X + ";" + in.Y + ";" + in.S + ";" + in.C + ")" + o, Q: in.S}, nil
 	})).
 		AddInput("l", compose.ToField("X")).
 		AddInput("r", compose.MapFields("v", "Y")).
+		AddInput("c", compose.ToField("C")).
 		AddInput(compose.START, compose.MapFields("ID", "ID"))
 	mid.SetStaticValue(compose.FieldPath{"S"}, "static")
 	wf.End().AddInput("m")
@@ -511,17 +565,22 @@ func buildWorkflow(r *lib.Rng, z *zoo) (*object, error) {
 	d := &dGraph{dag: true}
 	d.node("l", "FWfL", 0)
 	d.node("r", "FWfR", -1)
+	d.node("c", "FWfC", -1)
 	d.node("m", "FWfM", 0)
 	d.edge(compose.START, "l")
 	d.edge(compose.START, "r")
+	d.edge(compose.START, "c")
 	d.edge(compose.START, "m")
 	d.edge("l", "m")
 	d.edge("r", "m")
+	d.edge("c", "m")
 	d.edge("m", compose.END)
 	d.fmap(compose.START, "l", [2]string{"ID", "ID"}, [2]string{"A", "A"})
 	d.fmap(compose.START, "r", [2]string{"B", ""})
 	d.fmap("l", "m", [2]string{"", "X"})
 	d.fmap("r", "m", [2]string{"v", "Y"})
+	d.fmap(compose.START, "c", [2]string{"A", ""})
+	d.fmap("c", "m", [2]string{"", "C"})
 	d.fmap(compose.START, "m", [2]string{"ID", "ID"})
 	d.statics = append(d.statics, [3]string{"m", "S", "static"})
 	mshared := []string{opT(0, "S", []string{"l"}, []string{"m"})}
@@ -532,8 +591,8 @@ func buildWorkflow(r *lib.Rng, z *zoo) (*object, error) {
 			return callTerm(vM("A", vS(fmt.Sprintf("a%d", sp.In)), "B", vS(fmt.Sprintf("b%d", sp.In*7)), "ID", vS(selfTag)),
 				mWithShared(sp.Opt, mshared, mLambdaOpts(si, sp.Opt, "l", "m")), 0)
 		},
-		kind: "workflow", shape: []string{"wf:mapped"},
-		nIn: 4, paras: allParas,
+		kind: "workflow", shape: []string{"wf:mapped+guard"},
+		nIn: 5, paras: allParas,
 		optSet:  []int{0, optLambdaDesignated, optLambdaGlobal, optCbGlobal, optCbThree | optCbDesignated, optCtxHandlers, optShared, optShared | optLambdaGlobal | optCbDesignated},
 		baseCtx: sharedCtx,
 		call: func(ctx context.Context, rc *callRec, sp spec) string {
